@@ -384,6 +384,88 @@ def run_gap(direction, g, ctx):
     del mid
 
 
+# ---- (d1) more range shapes -----------------------------------------------------
+def run_shapes(ctx):
+    """(i) row-major order for ranges in columns beyond A-D (column numbers
+    around 8, 16, 24, 32); (ii) the same rectangle on two sheets inside one
+    formula; (iii) long runs of zeros / FALSE are values, not blanks."""
+    inputs = {'family': 'shapes'}
+    # (i) order
+    cells = {}
+    for ci in range(5, 36):                      # F .. AI
+        cells['Sheet1!%s1' % col_name(ci)] = ci
+        cells['Sheet1!%s2' % col_name(ci)] = 100 + ci
+    probes = []
+    for lo in range(5, 34):
+        for width in (2, 3, 5):
+            hi = min(lo + width - 1, 35)
+            rng = '%s1:%s2' % (col_name(lo), col_name(hi))
+            want = ''.join(str(v) for r in (0, 100)
+                           for v in range(r + lo, r + hi + 1))
+            probes.append(('CONCAT(%s)' % rng, 'text:' + want))
+    for i, (f, want) in enumerate(probes):
+        cells['Sheet1!A%d' % (10 + i)] = '=' + f
+    model = lib.compile_dict(cells)
+    ev = lib.Evaluator(model)
+    for i, (f, want) in enumerate(probes):
+        ctx.check('C03/shapes/order/' + f,
+                  lib.observe(ev.evaluate, 'Sheet1!A%d' % (10 + i)), want,
+                  ['range', 'order:row-major', 'cols:beyond-D'], inputs, True)
+    lib.clear_caches()
+    # (ii) one rectangle text, two sheets, one formula (a model of its own:
+    # no other formula may register the ranges)
+    for r1, c1, r2, c2 in ((1, 0, 3, 0), (1, 0, 2, 1), (2, 1, 3, 2)):
+        rect = '%s%d:%s%d' % (W.COLS[c1], r1, W.COLS[c2], r2)
+        drect = '$%s$%d:$%s$%d' % (W.COLS[c1], r1, W.COLS[c2], r2)
+        own = other = 0
+        cells = {}
+        for r in range(r1, r2 + 1):
+            for c in range(c1, c2 + 1):
+                a = '%s%d' % (W.COLS[c], r)
+                cells['Sheet1!' + a] = r * 10 + c + 1
+                cells['Data!' + a] = 500 + r * 10 + c
+                own += r * 10 + c + 1
+                other += 500 + r * 10 + c
+        for k, (f, want) in enumerate((
+                ('SUM(%s)+SUM(Data!%s)' % (rect, rect), own + other),
+                ('SUM(Data!%s)-SUM(%s)' % (rect, drect), other - own),
+                ('SUM(Data!%s)*2' % rect, other * 2))):
+            m = dict(cells)
+            m['Sheet1!H1'] = '=' + f
+            ctx.check('C03/shapes/two-sheets/%s/%d' % (rect, k),
+                      lib.eval_addr(lib.compile_dict(m), 'Sheet1!H1'),
+                      lib.norm(want),
+                      ['range', 'same-rectangle-on-two-sheets'], inputs, True)
+    # (iii) runs of falsy values
+    for direction in ('row', 'column'):
+        for filler, fname in ((0, 'zero'), (False, 'false')):
+            for n in (99, 101, 130):
+                cells = {}
+                for k in range(n):
+                    a = ('%s1' % col_name(k + 1)) if direction == 'row' \
+                        else 'A%d' % (k + 1)
+                    cells['Sheet1!' + a] = filler
+                last = ('%s1' % col_name(n + 1)) if direction == 'row' \
+                    else 'A%d' % (n + 1)
+                cells['Sheet1!' + last] = 7
+                rng = 'A1:' + last
+                for k, (f, want) in enumerate((
+                        ('SUM(%s)' % rng, 7),
+                        ('COUNTA(%s)' % rng, n + 1),
+                        ('COUNT(%s)' % rng, n + 1 if fname == 'zero'
+                         else None))):
+                    if want is None:
+                        continue           # COUNT of logicals: not C03's
+                    m = dict(cells)
+                    m['Sheet1!ZZ9'] = '=' + f
+                    ctx.check('C03/shapes/run-of-%s/%s/n=%d/%s'
+                              % (fname, direction, n, f.split('(')[0]),
+                              lib.eval_addr(lib.compile_dict(m),
+                                            'Sheet1!ZZ9'), lib.norm(want),
+                              ['range', 'run-of-falsy-values',
+                               'dir:' + direction], inputs, True)
+
+
 # ---- (d2) whole-row / whole-column references ------------------------------------
 WHOLE_ROW = ['2:2', '$2:$2', '$2:2', '2:$2', '2:3', '$2:$3', '$2:3',
              'Sheet1!2:2', 'Sheet1!$2:$2', "'Sheet1'!$2:$3"]
@@ -531,6 +613,34 @@ def run_utils(part, ctx):
                                  got if got.startswith('raise:')
                                  else 'other-cells', True,
                                  'want=%s got=%s' % (want, got))
+            # windows of columns around 8 / 16 / 24 / 32 (row-major order of
+            # the columns must not depend on how a set happens to iterate)
+            if sheet == 'Sheet1':
+                for base in (5, 13, 21, 29):
+                    for a in range(base, base + 5):
+                        for b in range(a, base + 5):
+                            text = '%s1:%s2' % (col_name(a), col_name(b))
+                            full = (sp + '!' + text) if sp else text
+                            want = repr(('Sheet1', [
+                                ['Sheet1!%s%d' % (col_name(c), r)
+                                 for c in range(a, b + 1)]
+                                for r in (1, 2)]))
+                            try:
+                                got = repr(tuple(
+                                    lib.xlutils.resolve_ranges(full)))
+                            except Exception as exc:  # noqa: BLE001
+                                got = lib.exc_obs(exc)
+                            key = 'C03/utils/resolve_ranges/%s' % full
+                            if got == want:
+                                ctx.ok(key, 'ok', True)
+                            else:
+                                ctx.fail(key, ['utils:resolve_ranges',
+                                               'cols:beyond-D'],
+                                         {'family': 'utils', 'part': part},
+                                         'rows x columns in row-major order',
+                                         got if got.startswith('raise:')
+                                         else 'other-cells', True,
+                                         'want=%s got=%s' % (want, got))
             if sp is None:
                 continue
             for r in W.ROWS:
@@ -566,6 +676,7 @@ def plan(tier):
         for g in GAPS:
             shards.append({'family': 'gap', 'direction': direction, 'g': g})
     shards.append({'family': 'names'})
+    shards.append({'family': 'shapes', 'weight': 9})
     shards.append({'family': 'whole', 'kind': 'row', 'weight': 9})
     if tier == 'thorough':
         shards.append({'family': 'whole', 'kind': 'column', 'weight': 20})
@@ -595,6 +706,8 @@ def run_shard(shard, ctx):
         run_gap(shard['direction'], shard['g'], ctx)
     elif f == 'names':
         run_names(ctx)
+    elif f == 'shapes':
+        run_shapes(ctx)
     elif f == 'whole':
         run_whole(shard['kind'], ctx)
     elif f == 'utils':
